@@ -41,7 +41,8 @@ Definition keys {A : Type} (m : list (Z * A)) : list Z := map fst m.
 Record pool := { p_free : list Z;      (* TagPool._set *)
                  p_next : Z }.         (* TagPool._next *)
 
-Definition pool_init : pool := {| p_free := []; p_next := 1 |}.
+Definition pool_at (b : Z) : pool := {| p_free := []; p_next := b |}.
+Definition pool_init : pool := pool_at 1.
 
 Inductive get_res :=
 | GotTag (t : Z) (p : pool)
@@ -87,7 +88,10 @@ Inductive qentry :=
 | QPing.                 (* Tping on tag 1; dct = _EMPTY_DCT *)
 
 Record cfg := { max_tag : Z;     (* TagPool(max_tag): 2^24 - 1 in _Init *)
-                kafka : bool }.  (* KafkaTransportSink instead of the ThriftMux SocketTransportSink *)
+                kafka : bool;    (* KafkaTransportSink instead of the ThriftMux SocketTransportSink *)
+                base : Z }.      (* high-water mark every new connection's pool starts from: 1 for the real TagPool;
+                                    b > 1 = the pool has already handed out the tags 2..b to holders outside the run
+                                    (what b-1 calls of get() leave behind, see C11_fill) *)
 
 Record state := {
   pl : pool;
@@ -97,8 +101,8 @@ Record state := {
   closed : bool;                 (* _state == Closed *)
   conn : Z }.
 
-Definition init : state :=
-  {| pl := pool_init; tmap := []; sendq := []; calls := []; closed := false; conn := 0 |}.
+Definition start (cf : cfg) : state :=
+  {| pl := pool_at (base cf); tmap := []; sendq := []; calls := []; closed := false; conn := 0 |}.
 
 Inductive label :=
 | Req (c dl pick : Z)      (* AsyncProcessRequest for a new call c; dl: 0 no deadline, 1 event pending, otherwise the
@@ -269,9 +273,9 @@ Definition do_ping (cf : cfg) (s : state) : state * list event :=
   if closed s || kafka cf then (s, [])
   else (set_sendq s (sendq s ++ [QPing]), [EEnq KPing 1 0]).
 
-Definition do_reopen (s : state) : state * list event :=
+Definition do_reopen (cf : cfg) (s : state) : state * list event :=
   if closed s
-  then ({| pl := pool_init; tmap := []; sendq := []; calls := calls s; closed := false; conn := conn s + 1 |}, [])
+  then ({| pl := pool_at (base cf); tmap := []; sendq := []; calls := calls s; closed := false; conn := conn s + 1 |}, [])
   else (s, []).
 
 Definition step (cf : cfg) (s : state) (l : label) : state * list event :=
@@ -284,7 +288,7 @@ Definition step (cf : cfg) (s : state) (l : label) : state * list event :=
   | RecvJunk => (s, [])
   | Ping => do_ping cf s
   | Shutdown => do_shutdown s
-  | Reopen => do_reopen s
+  | Reopen => do_reopen cf s
   end.
 
 (* final state / per-step events / whole trace of a label sequence *)
@@ -320,7 +324,7 @@ Definition track_all (acc : list (Z * Z) * list Z) (evs : list event) : list (Z 
 Definition unanswered (evs : list event) : list (Z * Z) := fst (track_all ([], []) evs).
 
 (* the configuration of the real transports *)
-Definition real_cfg (k : bool) : cfg := {| max_tag := 16777215; kafka := k |}.
+Definition real_cfg (k : bool) : cfg := {| max_tag := 16777215; kafka := k; base := 1 |}.
 
 (* ---- correspondence cases (generated by harness/props/c11.py) ----------------------------------- *)
 Inductive pool_op := PGet (pick : Z) | PRel (t : Z).
@@ -392,7 +396,7 @@ Definition check_case (c : case) : bool :=
       let (r, p) := get_many mx n pool_init in
       (p_next p =? last) && Bool.eqb r refused &&
       option_eqb Z.eqb (match pool_get mx 0 p with GotTag t _ => Some t | _ => None end) after
-  | CMux cf ops e => list_eqb (list_eqb event_eqb) (run cf init ops) e
+  | CMux cf ops e => list_eqb (list_eqb event_eqb) (run cf (start cf) ops) e
   end.
 
 (* what the model computes, for the replay file *)
@@ -400,5 +404,5 @@ Definition explain_case (c : case) : list pool_obs * list (list event) :=
   match c with
   | CPool mx ops _ => (run_pool mx pool_init ops, [])
   | CFill mx n _ _ _ => let (r, p) := get_many mx n pool_init in ([OTag (p_next p); if r then OExhausted else OTag (p_next p)], [])
-  | CMux cf ops _ => ([], run cf init ops)
+  | CMux cf ops _ => ([], run cf (start cf) ops)
   end.
